@@ -232,7 +232,8 @@ func (c *CsBackend) Stream(start, end []byte, rev uint64) (kvs []KVR, isErr bool
 // CsScanner builds a stand-alone scanner with the backend's configuration over kv.
 func CsScanner(kv storage.KvStorage, prefix string, ttl time.Duration) scanner.Scanner {
 	return scanner.NewScanner(kv, coder.NewNormalCoder(), scanner.Config{
-		CompactKey: []byte(prefix + "/compact_key"), Tombstone: []byte("tombstone"), TTL: ttl}, &NopMetrics{})
+		CompactKey: []byte(prefix + "/compact_key"), Tombstone: []byte("tombstone"), TTL: ttl,
+		EventsPrefix: []byte(prefix + "/events/")}, &NopMetrics{})
 }
 
 // CsDataDump returns the engine contents without the compaction record and the election keys
